@@ -136,12 +136,12 @@ def _field(PFE, wv, helper: bool):
     return PFE.with_byte_size(w, v)
 
 
-def build_report(c, helper_fields=False):
+def build_report(c, helper_fields=False, int_subservice=False):
     sp, s1, PFE, RequestId, PusTc = _m()
     step = None if c["step"] is None else _field(PFE, c["step"], helper_fields)
     fail = None if c["err"] is None else s1.FailureNotice(_field(PFE, c["err"], helper_fields), bytes.fromhex(c["fail_data"]))
     params = s1.VerificationParams(build_req_id(c["req_id"]), step, fail)
-    return s1.Service1Tm(apid=c["apid"], subservice=s1.Subservice(c["sub"]), timestamp=bytes.fromhex(c["ts"]), verif_params=params, seq_count=c["seq"],
+    return s1.Service1Tm(apid=c["apid"], subservice=(c["sub"] if int_subservice else s1.Subservice(c["sub"])), timestamp=bytes.fromhex(c["ts"]), verif_params=params, seq_count=c["seq"],
                          packet_version=c["ver"], space_time_ref=c["time_ref"], destination_id=c["dest_id"])
 
 
@@ -194,6 +194,11 @@ def check_report(c):
 
     d2 = s1.Service1Tm.from_tm(PusTm.unpack(want, len(ts)), up)
     eq(devs, "from_tm.obs", obs_report(d2), want_report_obs(c))
+    # the subservice given as the plain integer a decoder exposes
+    ri = build_report(c, int_subservice=True)
+    eq(devs, "int_subservice.bytes", bytes(ri.pack()), want)
+    eq(devs, "int_subservice.obs", obs_report(ri), want_report_obs(c))
+    true(devs, "int_subservice.eq_decoded", bool(s1.Service1Tm.unpack(want, up) == ri), "decoded report != report built with an integer subservice")
     # step id / error code given through the fixed-width helper classes
     rh = build_report(c, helper_fields=True)
     eq(devs, "helper_fields.bytes", bytes(rh.pack()), want)
